@@ -241,7 +241,7 @@ class State:
 
 
 class Limits:
-    def __init__(s, loop=12, rec=24, steps=200000):
+    def __init__(s, loop=12, rec=24, steps=3000000):
         s.loop, s.rec, s.steps = loop, rec, steps
 
 
